@@ -2295,14 +2295,25 @@ def r04_7(prog, rep, rid='R04.7'):
             answers.append((key, False))        # falls off the end: None
             continue
         h2 = handed or nid in hnodes
+        if n.kind == 'stmt' and isinstance(n.ast, ast.Assign):
+            # a result local: `res = False` ... `res = True` ... `return res`
+            tg = {x for t in n.ast.targets for x in stores_in_target(t)}
+            facts = frozenset(x for x in facts if x[0] not in tg)
+            if isinstance(n.ast.value, ast.Constant) and \
+                    all(isinstance(t, ast.Name) for t in n.ast.targets):
+                facts |= {(t, bool(n.ast.value.value)) for t in tg}
         for e, f2 in outs(n, facts):
             k2 = (e.dst, f2, h2)
             if k2 not in parent:
                 parent[k2] = (key, e)
                 todo.append(k2)
-    if not any(t for k, t in answers):
-        raise AnalysisError('UNRECOGNISED-IDIOM %s: no true answer found'
-                            % f.where)
+    if not any(t for k, t in answers) and \
+            not any(k[2] for k, t in answers):
+        # never true and never hands anything on: not the function this rule
+        # knows.  (Never true but handing on is decided below: every path
+        # with the hand-on answers false)
+        raise AnalysisError('UNRECOGNISED-IDIOM %s: no true answer and no '
+                            'CANCELED hand-on found' % f.where)
 
     def path_of(key):
         out = []
@@ -2356,13 +2367,20 @@ def r04_7(prog, rep, rid='R04.7'):
                     for n, e in path_of(lost[0]) if n.kind == 'test']
               if lost else None)
     dup = [k for k, t in answers if k[2] and not t]
+    how = ''
+    if dup:
+        last = g.nodes[dup[0][0]]
+        how = ('`%s`' % short(last.ast, 40)) if last.kind == 'stmt' else \
+            'falling off the end of the function (None)'
     rep.check(not dup, rid, f, 'is_canceled answers true on every path on '
               'which it handed the task on as CANCELED',
               construct='is_canceled:handed=>true',
               message='is_canceled(%s) can hand the task on as CANCELED and '
-              'then answer False: the scheduler keeps the task in the wait '
-              'pool and starts it later although it was reported CANCELED'
-              % param, loc=f.loc(),
+              'then answer false (by %s): the scheduler keeps the task in the '
+              'wait pool and starts it later although it was reported '
+              'CANCELED' % (param, how),
+              loc=f.loc(g.nodes[dup[0][0]].ast) if dup and
+              g.nodes[dup[0][0]].kind == 'stmt' else f.loc(),
               history='cancel request for a waiting task B: B is published '
               'as CANCELED and started once cores are free',
               path=[short(n.ast, 50) + ' -> ' + e.label
